@@ -302,7 +302,8 @@ func dischargeAll(obls []*Obligation, opts solveOpts, par int) {
 	// fail fast: once several obligations of one function have not discharged, the function is broken (or its
 	// contract no longer fits it); the remaining ones get one short attempt, no retry and no case split
 	var mu sync.Mutex
-	failedIn := map[string]int{}
+	failedIn := map[string]int{}  // obligations of the function that did not discharge
+	refutedIn := map[string]int{} // ... of which with a counter-model
 	for _, o := range obls {
 		wg.Add(1)
 		sem <- struct{}{}
@@ -317,7 +318,7 @@ func dischargeAll(obls []*Obligation, opts solveOpts, par int) {
 				return
 			}
 			mu.Lock()
-			hopeless := failedIn[o.Func] >= 4 && !oo.all
+			hopeless := ((refutedIn[o.Func] >= 1 && failedIn[o.Func] >= 4) || failedIn[o.Func] >= 10) && !oo.all
 			mu.Unlock()
 			if (o.KnownOpen || hopeless) && oo.timeoutS > 4 && !oo.all {
 				oo.timeoutS = 4
@@ -326,6 +327,9 @@ func dischargeAll(obls []*Obligation, opts solveOpts, par int) {
 				if o.Status != "proved" && !o.KnownOpen { // counted on the final verdict only (after retry / case split)
 					mu.Lock()
 					failedIn[o.Func]++
+					if o.Status == "failed" {
+						refutedIn[o.Func]++
+					}
 					mu.Unlock()
 				}
 			}()
